@@ -7,6 +7,7 @@ import (
 	cryptotypes "github.com/cosmos/cosmos-sdk/crypto/types"
 	"github.com/cosmos/cosmos-sdk/telemetry"
 	sdk "github.com/cosmos/cosmos-sdk/types"
+	sdkerrors "github.com/cosmos/cosmos-sdk/types/errors"
 )
 
 func (k msgServer) CreateAccount(goCtx context.Context, msg *types.MsgCreateAccount) (*types.MsgCreateAccountResponse, error) {
@@ -20,6 +21,9 @@ func (k msgServer) CreateAccount(goCtx context.Context, msg *types.MsgCreateAcco
 		k.Logger(ctx).Error("create account parsing error", "error", err.Error())
 		return nil, err
 	}
+	if k.authKeeper.GetAccount(ctx, accAddress) != nil {
+		return nil, sdkerrors.Wrapf(sdkerrors.ErrInvalidRequest, "account %s already exists", msg.AccAddressString)
+	}
 	newAccount := k.authKeeper.NewAccountWithAddress(ctx, accAddress)
 
 	var pk cryptotypes.PubKey
@@ -30,12 +34,15 @@ func (k msgServer) CreateAccount(goCtx context.Context, msg *types.MsgCreateAcco
 		return nil, err
 	}
 
+	if pk == nil || !accAddress.Equals(sdk.AccAddress(pk.Address())) {
+		return nil, sdkerrors.Wrapf(sdkerrors.ErrInvalidPubKey, "public key does not match address %s", msg.AccAddressString)
+	}
 	err = newAccount.SetPubKey(pk)
 	if err != nil {
 		k.Logger(ctx).Error("new account set pub key error", "error", err.Error())
 		return nil, err
 	}
-	k.Logger(ctx).Debug("auth keeper set account", "newAccount", newAccount.String())
+	k.Logger(ctx).Debug("auth keeper set account", "address", msg.AccAddressString)
 	k.authKeeper.SetAccount(ctx, newAccount)
 
 	return &types.MsgCreateAccountResponse{AccountNumber: fmt.Sprint(newAccount.GetAccountNumber())}, nil
